@@ -88,7 +88,7 @@ func applyHandle[S any](b failsafe.FailurePolicyBuilder[S, R], c Cond) {
 		}
 	}
 	for _, r := range c.Results {
-		b.HandleResult(r)
+		b.HandleResult(resVal(r))
 	}
 	for _, p := range c.Preds {
 		b.HandleIf(predFn(p))
@@ -216,7 +216,7 @@ func (w *World) build(sc *Scenario, log *Log) {
 				}
 			}
 			for _, r := range p.Abort.Results {
-				b.AbortOnResult(r)
+				b.AbortOnResult(resVal(r))
 			}
 			for _, pr := range p.Abort.Preds {
 				b.AbortIf(predFn(pr))
@@ -235,6 +235,10 @@ func (w *World) build(sc *Scenario, log *Log) {
 			}
 			if p.MaxDuration != 0 {
 				b.WithMaxDuration(p.MaxDuration)
+			}
+			if p.PreReplaced && p.DelayKind != DelayNone {
+				// "Replaces any previously configured delay or backoff delay": nothing of these two may survive
+				b.WithBackoffFactor(3*time.Millisecond, 48*time.Millisecond, 2).WithRandomDelay(time.Millisecond, 6*time.Millisecond)
 			}
 			switch p.DelayKind {
 			case DelayFixed:
@@ -349,7 +353,7 @@ func (w *World) build(sc *Scenario, log *Log) {
 				b.CancelOnErrorTypes(errTypeTargets[t])
 			}
 			for _, r := range p.Cancel.Results {
-				b.CancelOnResult(r)
+				b.CancelOnResult(resVal(r))
 			}
 			for _, pr := range p.Cancel.Preds {
 				b.CancelIf(predFn(pr))
